@@ -808,6 +808,8 @@ def run(ctx):
     rule_seal_cycle(ctx)
     rule_str_slices(ctx)
     rule_partial_helpers(ctx)
+    from . import fmtrules
+    fmtrules.rule_directive_bounds(ctx)
     rule_exit_path(ctx)
     ctx.assume("capacity conversions (usize -> u32 ids/offsets) are out of scope: inputs are below 4 GiB")
     ctx.assume("the ~100 `let .. else { unreachable!(..query-produced..) }` tests of query results in check/mod.rs, "
